@@ -136,7 +136,7 @@ def rule_lookup(facts, rep):
 
     def cell(args):
         st_ = args[0]
-        if st_ == ("enum", cp.STATE + "::Anywhere"):
+        if st_ in (("enum", cp.STATE + "::Anywhere"), ("int", vt500.STATES.index("Anywhere"))):      # (`State::Anywhere as usize` is its discriminant)
             return ("sym", "A")
         if st_ == ("sym", "state") and args[1] == ("sym", "byte"):
             return ("sym", "S")
